@@ -266,6 +266,12 @@ DEFECT_EXHIBITS = [
     ("Lifecycle_x_dropbc.cfg", "deadlock", "a flusher that drops the pending broadcaster on stop leaves its listeners waiting"),
 ]
 
+POOL_EXHIBITS = [
+    # a socket Close() error re-enters HandleError: closing under pool.mu must be exhibited as a self-deadlock
+    ("MC_Pool_x_latelock.cfg", "NoSelfDeadlock"),
+    ("MC_Pool_x_closelock.cfg", "NoSelfDeadlock"),
+]
+
 DEB_GOALS = ["StopBusyPending", "StopBusyServedAndPending", "StopBusyTwoPending", "StopWokePending", "StopSelectPending",
              "RequestAfterStopBusy", "RequestAfterExit"]
 
@@ -323,6 +329,7 @@ def run(ctx):
         bg.append(pool.submit(must, "Lifecycle", "Lifecycle_fixed_live2.cfg", workers=W or 4, timeout=1500, heap="8g", extra=["-lncheck", "final"]))
     exh = [pool.submit(must, "Lifecycle", c, workers=2, timeout=300, extra=["-noGenerateSpecTE"]) for c, _, _ in DEFECT_EXHIBITS]
     exh_pool = pool.submit(must, "MC_Pool", "MC_Pool_defect.cfg", workers=2, timeout=300, extra=["-noGenerateSpecTE"])
+    exh_pool2 = [pool.submit(must, "MC_Pool", c, workers=2, timeout=300, extra=["-noGenerateSpecTE"]) for c, _ in POOL_EXHIBITS]
 
     # the deadlock TLC finds in the hand-shake of the code as it is today -> gate schedule
     cex_path = os.path.join(ctx.tmp, "cex_stop.json")
@@ -564,10 +571,18 @@ def run(ctx):
         elif kind == "AllConnsClosedAfterClose":
             key = "conn-leak-after-close:" + (i.get("leak") or "unclassified")
             what = "connections stayed open after Session.Close returned"
+            if (i.get("leak") or "").startswith("pool-lock-deadlock:"):
+                key = i["leak"]
+                what += " (held by goroutines blocked behind a pool lock that is never released)"
         elif kind == "GoroutinesExit":
             rec = [r for r in sby[v["sched"]] if r["ev"] == "b_end"][0]
-            key = "goroutine-leak-after-close:" + rec["q"]
-            what = "driver goroutines were still running after every session of the batch had been closed: " + rec["q"]
+            if rec["q"].startswith("pool-lock-deadlock:"):
+                key = rec["q"]
+                what = ("driver goroutines of closed sessions can never end: a pool method waits for pool.mu while it holds it "
+                        "(a connection closed under the lock reported a socket Close() error to hostConnPool.HandleError)")
+            else:
+                key = "goroutine-leak-after-close:" + rec["q"]
+                what = "driver goroutines were still running after every session of the batch had been closed: " + rec["q"]
         elif kind == "QueryAfterClose":
             key = "query-after-close-not-refused"
             what = "a query issued after Close returned did not fail with ErrSessionClosed"
@@ -631,6 +646,11 @@ def run(ctx):
         r, _ = f.result()
         if r.violated != expect:
             raise vf.Inconclusive("model %s should exhibit %s (%s) but gave violated=%s error=%s" % (cfg, expect, what, r.violated, r.error))
+        note(r, cfg)
+    for f, (cfg, expect) in zip(exh_pool2, POOL_EXHIBITS):
+        r, _ = f.result()
+        if r.violated != expect:
+            raise vf.Inconclusive("model %s should exhibit %s but gave violated=%s error=%s" % (cfg, expect, r.violated, r.error))
         note(r, cfg)
     r, _ = exh_pool.result()
     if r.violated != "ReportedNotInPool":
